@@ -514,6 +514,16 @@ def _(i, st, a, c):
         st.asserts.append((tuple(st.pc), inb, 'index out of bounds (Vec/slice index)', 'model'))
         st.pc.append(inb)
     off = r.win[0] if r.win is not None else 0
+    if is_z3(idx) and isinstance(v, Agg) and v.items and not all(isinstance(x, (int, bool, Fraction)) or is_z3(x) for x in v.items):
+        # elements are aggregates (cannot be merged by ite when their shapes differ): enumerate the feasible concrete indices
+        out = []
+        for k in range(len(v.items)):
+            cond = idx == k
+            if i.feasible(st, cond):
+                s2 = st.fork()
+                s2.pc.append(cond)
+                out.append((s2, Ref(r.base, r.path + (k + off,))))
+        return out
     return Ref(r.base, r.path + (arith('+', idx, off) if off else idx,))
 
 
@@ -737,6 +747,8 @@ def _as_list(i, st, v):
         v = i.deref_read(st, v)
     if isinstance(v, Agg) and v.tag == 'ListIter':
         return list(v.items)
+    if isinstance(v, Agg) and v.tag == 'Range' and len(v.items) == 2 and not is_z3(v.items[0]) and not is_z3(v.items[1]):
+        return list(range(v.items[0], v.items[1]))
     raise Unsupported('iterator model: expected a list iterator, got %r' % (getattr(v, 'tag', v),))
 
 
@@ -1148,3 +1160,51 @@ def _(i, st, a, c):
         i.panics.append((tuple(st.pc), 'slice start out of range', st))
         return []
     return Ref(r.base, r.path, (off + start, n - start))
+
+
+@model(r'DVec3::as_uvec3')
+def _(i, st, a, c):
+    out = []
+    v = i.deref_read(st, a[0]) if isinstance(a[0], Ref) else a[0]
+    for x in v.items:
+        if is_z3(x):
+            raise Unsupported('as_uvec3 of a symbolic vector')
+        out.append(int(x))
+    return Agg('UVec3', out)
+
+
+@model(r'<i32 as Ord>::max', r'<usize as Ord>::max', r'<u32 as Ord>::max', r'std::cmp::max', r'core::cmp::max')
+def _(i, st, a, c):
+    x, y = a
+    if not is_z3(x) and not is_z3(y):
+        return max(x, y)
+    return z3.If(to_z3(x) >= to_z3(y), to_z3(x), to_z3(y))
+
+
+@model(r'<i32 as Ord>::min', r'<usize as Ord>::min', r'<u32 as Ord>::min', r'std::cmp::min', r'core::cmp::min')
+def _(i, st, a, c):
+    x, y = a
+    if not is_z3(x) and not is_z3(y):
+        return min(x, y)
+    return z3.If(to_z3(x) <= to_z3(y), to_z3(x), to_z3(y))
+
+
+@model(r'<.* as Iterator>::chain')
+def _(i, st, a, c):
+    return list_iter(_as_list(i, st, a[0]) + _as_list(i, st, a[1]))
+
+
+@model(r'<Vec as Index<std::ops::Range<usize>>>::index', r'<Vec as IndexMut<std::ops::Range<usize>>>::index_mut',
+       r'<\[.*\] as Index<std::ops::Range<usize>>>::index', r'<\[.*\] as IndexMut<std::ops::Range<usize>>>::index_mut')
+def _(i, st, a, c):
+    r, rng = a
+    lo, hi = rng.items[0], rng.items[1]
+    if is_z3(lo) or is_z3(hi):
+        raise Unsupported('symbolic slice range')
+    v = i.deref_read(st, r)
+    off = r.win[0] if r.win is not None else 0
+    n = len(v.items)
+    if lo > hi or hi > n:
+        i.panics.append((tuple(st.pc), 'slice range %d..%d out of range for length %d' % (lo, hi, n), st))
+        return []
+    return Ref(r.base, r.path, (off + lo, hi - lo))
